@@ -99,6 +99,9 @@ pub fn tok_to_char(s: &str) -> char {
     match s {
         "E" => '\u{e9}',
         "W" => '\u{1D11E}',
+        // multi-code-point grapheme clusters (kind "graph"; elsewhere they are just unusual characters)
+        "G" => '\u{E000}',
+        "U" => '\u{E001}',
         // C14: whitespace and line terminators have token names
         "S" => ' ',
         "T" => '\t',
@@ -117,6 +120,8 @@ pub fn char_to_tok(c: char) -> String {
     match c {
         '\u{e9}' => "E".to_string(),
         '\u{1D11E}' => "W".to_string(),
+        '\u{E000}' => "G".to_string(),
+        '\u{E001}' => "U".to_string(),
         ' ' => "S".to_string(),
         '\t' => "T".to_string(),
         '\n' => "N".to_string(),
